@@ -3,11 +3,15 @@ CONSTANTS
   N = 11
   Ends <- EndsB
   IsDoc <- IsDocB
+  IsBad <- NoBad5
   ErrAts <- ErrB
   QCap = 1
 INVARIANT PrefixInv
 INVARIANT TerminalLast
 INVARIANT ClosedRight
 INVARIANT NoEmptyValue
+INVARIANT UntilFirstError
+INVARIANT BeforeErrorIsPrefix
+INVARIANT ClosedHasVerdict
 PROPERTY EventuallyClosed
 CHECK_DEADLOCK FALSE
